@@ -38,7 +38,8 @@
 (*            elect (it takes office at the next epoch boundary)           *)
 (*   pending  oracle request ids not answered yet                          *)
 (*   on, nn   ids of the designated oracle / notary node sets              *)
-(*   bal      payer -> GAS balance                                         *)
+(*   bal      payer -> GAS balance (payer "DEPx": the notary deposit of x,  *)
+(*            which pays when the Notary contract is the sender)           *)
 (*   cver     verification contract -> version (0: destroyed)              *)
 (* Transaction t:                                                          *)
 (*   id, signers (sequence of account names, the first one pays), vub,     *)
@@ -124,6 +125,8 @@ ApplyOp(b, st, GasFor) ==
       \* ContractManagement.destroy also puts the contract's hash on Policy's list of blocked accounts
       [] b.op = "cver"     -> [st EXCEPT !.cver = [@ EXCEPT ![b.a] = b.v], !.blocked = IF b.v = 0 THEN @ \cup {b.a} ELSE @]
       [] b.op = "drain"    -> [st EXCEPT !.bal = [@ EXCEPT ![b.a] = Dec(@, b.v)]]
+      \* a notary deposit (payer "DEPx": the Notary contract sends, depositor x pays from its deposit) is withdrawn
+      [] b.op = "withdraw" -> [st EXCEPT !.bal = [@ EXCEPT ![b.a] = 0]]
       [] b.op = "conflict" -> [st EXCEPT !.named = @ \cup {[id |-> b.v, by |-> b.a]}]
       [] OTHER             -> st
 
